@@ -349,18 +349,21 @@ char* FailableMemoryAllocator::alloc_memory(size_t size, const char* file, size_
     currentAllocNumber_++;
     LocationToFailAllocNode* current = head_;
     LocationToFailAllocNode* previous = NULLPTR;
+    bool fail = false;
 
     while (current) {
+      LocationToFailAllocNode* next = current->next_;
       if (current->shouldFail(currentAllocNumber_, file, line)) {
-        if (previous) previous->next_ = current->next_;
-        else head_ = current->next_;
+        if (previous) previous->next_ = next;
+        else head_ = next;
 
         free_memory((char*) current, size, __FILE__, __LINE__);
-        return NULLPTR;
+        fail = true;
       }
-      previous = current;
-      current = current->next_;
+      else previous = current;
+      current = next;
     }
+    if (fail) return NULLPTR;
     return TestMemoryAllocator::alloc_memory(size, file, line);
 }
 
